@@ -141,6 +141,35 @@ func c04OrderingUnit(p *Prog, r *Report) {
 		r.Unknown("R04g", "units of the tracker loop", instrPos(reset), "the declaration handed to the translator is not an element of a slice")
 		return
 	}
+	// the units are handed in as a parameter: follow it to the (single) caller, which then is the ordering function
+	for hop := 0; hop < 3; hop++ {
+		pa, ok := units.(*ssa.Parameter)
+		if !ok {
+			break
+		}
+		idx := -1
+		for i, q := range D.Params {
+			if q == pa {
+				idx = i
+			}
+		}
+		var site *ssa.Call
+		n := 0
+		for _, g := range p.FuncsIn(Mod) {
+			p.instrs(g, func(b *ssa.BasicBlock, i int, in ssa.Instruction) {
+				if c, ok := in.(*ssa.Call); ok && calleeOf(&c.Call) == D && idx >= 0 && idx < len(c.Call.Args) {
+					site = c
+					n++
+				}
+			})
+		}
+		if n != 1 {
+			break
+		}
+		units = site.Call.Args[idx]
+		D = site.Parent()
+		r.Func(FuncName(D))
+	}
 	rawDecls := func(v ssa.Value) bool {
 		o, fld, ok := fieldOf(v)
 		return ok && o.Obj().Name() == "File" && o.Obj().Pkg().Path() == "go/ast" && fld == "Decls"
